@@ -39,7 +39,7 @@ TECHNIQUE = "runtime contracts (icontract) against a brute-force object enumerat
 ASSUMPTIONS = ["brute-force enumeration of word classes is the ground truth"]
 N = {"quick": 6, "thorough": 8}
 FLOORS = {
-    "quick": {"nontrivial": 300, "counters": {"objects.sizes_compared": 2000, "objects.objects_compared": 30000,
+    "quick": {"nontrivial": 250, "counters": {"objects.sizes_compared": 2000, "objects.objects_compared": 20000,
                                                "maps.round_trips_checked": 30000,
                                                "c07.specs_with_path_and_reverse": 5},
               "seen": {"maps.rule_form": 4}},
